@@ -49,6 +49,13 @@ def audit_scope(F, keys, rep, table, armed=True):
     used = set()
     USED.clear()
     n = auto = tabled = 0
+    # sites of the k-mer window bodies that the slot-domain evaluation (C20-K5/K6) executed for every k in 1..=32,
+    # every fill level and every symbol without tripping the assert
+    try:
+        from rules import c20
+        evaluated = c20.window_evaluated(F) if getattr(F, "cfg", "dev") == "dev" else set()
+    except Exception as e:       # fail closed: without the evaluation the sites need a guard or a table entry
+        evaluated = set()
     for k in sorted(keys):
         f = F.funcs[k]
         if f.crate not in ("ragc_core", "ragc_common", "ragc") or f.kind == "promoted":
@@ -65,6 +72,8 @@ def audit_scope(F, keys, rep, table, armed=True):
             ok, why = aud.discharge(bi, t, wide_ok=True)
             desc = aud.describe(t)
             nkey = aud.describe_norm(t)
+            if not ok and (k, bi) in evaluated:
+                ok, why = True, "evaluated in the 2-bit slot domain for every k in 1..=32, every fill level 0..=k and every symbol 0..3 (C20-K5/K6): the assert holds in all of them"
             if ok:
                 auto += 1
                 if armed:
